@@ -30,6 +30,11 @@ func NewRecordBatchFromBytes(data []byte) (RecordBatch, error) {
 	baseOffset := int64(binary.BigEndian.Uint64(data[0:8]))
 	lastOffsetDelta := int32(binary.BigEndian.Uint32(data[23:27]))
 	messageCount := int32(binary.BigEndian.Uint32(data[57:61]))
+	if lastOffsetDelta < 0 {
+		// The log advances nextOffset by lastOffsetDelta+1: a negative delta would
+		// make it stand still or move backwards and hand out offsets twice.
+		return RecordBatch{}, fmt.Errorf("record batch has negative last offset delta: %d", lastOffsetDelta)
+	}
 	return RecordBatch{
 		BaseOffset:      baseOffset,
 		LastOffsetDelta: lastOffsetDelta,
